@@ -236,10 +236,25 @@ def python_kernel_record(repo, fn):
         rec["k"] = 1
         rec["d"] = norm_default(by[-1].value)
         return rec
+    from .forms import value_cases, split_ifexp
     if not ys:
-        raise AnalysisError(f"{fn.qualname}: python kernel without yield")
-    from .forms import value_cases
-    cases = [(leaf, f) for node, leaf, f in value_cases(fn, "yield")]
+        # the kernel returns a generator expression over the groups instead of yielding in a loop
+        from .forms import expand as _expand_k
+        gens = []
+        for n in body_nodes(fn.node):
+            if isinstance(n, ast.Return) and isinstance(n.value, ast.GeneratorExp) and len(n.value.generators) == 1 \
+                    and not n.value.generators[0].ifs:
+                it = _expand_k(fn, n.value.generators[0].iter, n)
+                if isinstance(it, ast.Call) and norm(it.func).startswith("yield_groups"):
+                    gens.append((n.value, it))
+        if len(gens) != 1:
+            raise AnalysisError(f"{fn.qualname}: python kernel without yield")
+        g, it = gens[0]
+        rec["groups"] = (norm(it.func), [norm(a) for a in it.args])
+        from .facts import close_under_negation as _closed
+        cases = [(leaf, frozenset(_closed(f))) for leaf, f in split_ifexp(g.elt)]
+    else:
+        cases = [(leaf, f) for node, leaf, f in value_cases(fn, "yield")]
     # a positional kernel written without try/except IndexError: one yield whose value selects an element of the group
     # by the index parameter.  Decided exactly by interpreting the (temporaries-expanded) expression on lists of every
     # small length for every ordering of the index (sa/intpred.py).
